@@ -6,6 +6,9 @@
 use crate::lfu::tinylfu::error::TinyLFUError;
 use crate::lfu::tinylfu::sketch::{next_power_of_2, CountMinRow, DEPTH};
 
+#[cfg(feature = "verif-hooks")]
+mod verif;
+
 #[cfg(feature = "std")]
 use alloc::vec::{self, Vec};
 #[cfg(feature = "std")]
